@@ -250,6 +250,23 @@ class RpmsMachine(ManifestMachine):
                     if variant not in manifest:
                         return "noop-src-only"
                     manifest[variant]["src"] = src_table
+            deco = op.get("decorate")
+            if deco:
+                # the same facts with keys in an accepted but non-canonical spelling (file-name form / directory prefix),
+                # consistently in the arch tables and in the src table
+                def dk(k):
+                    return ("Packages/" + k if deco == "dir" else k) + (".rpm" if deco in ("rpm", "dir") else "")
+                manifest = dict((v, dict((a, (dict((dk(sk), t) for sk, t in tab.items()) if a == "src" else
+                                              dict((dk(sk), dict((dk(nk), e) for nk, e in grp.items())) for sk, grp in tab.items())))
+                                         for a, tab in arches.items())) for v, arches in manifest.items())
+                CTX.probe("c10.rpms_0_3_noncanonical_keys")
+
+                def canon(k):
+                    k = k[len("Packages/"):] if k.startswith("Packages/") else k
+                    return k[:-4] if k.endswith(".rpm") else k
+            else:
+                def canon(k):
+                    return k
             del doc["payload"]["rpms"]
             doc["payload"]["manifest"] = manifest
             # expected upgrade, from the OLD document by the documented mapping
@@ -260,14 +277,16 @@ class RpmsMachine(ManifestMachine):
                 for arch in manifest[variant]:
                     if arch == "src":
                         continue
-                    for srpm, group in manifest[variant][arch].items():
-                        for nevra, e in group.items():
+                    for srpm_raw, group in manifest[variant][arch].items():
+                        srpm = canon(srpm_raw)
+                        for nevra_raw, e in group.items():
+                            nevra = canon(nevra_raw)
                             expected.setdefault(variant, {}).setdefault(arch, {}).setdefault(srpm, {})[nevra] = {
                                 "path": e["path"], "sigkey": e["sigkey"].lower() if e["sigkey"] else e["sigkey"],
                                 "category": "binary" if e["type"] == "package" else e["type"]}
-                        if srpm in table:
+                        if srpm_raw in table:
                             nsrc += 1
-                            t = table[srpm]
+                            t = table[srpm_raw]
                             expected[variant][arch][srpm][srpm] = {"path": t["path"], "sigkey": t["sigkey"].lower() if t["sigkey"] else t["sigkey"],
                                                                     "category": "source"}
             if nsrc:
